@@ -4,6 +4,7 @@ import Driver.Codec
 import Driver.Ops
 import Driver.SpecP
 import Driver.ProcR
+import Driver.Dir
 open Lean Driver
 
 def handle (line : String) : Verdict :=
@@ -17,6 +18,11 @@ def handle (line : String) : Verdict :=
       else if mode == "ops" then OpsReplay.replay j
       else if mode == "spec" then SpecReplay.replay j
       else if mode == "proc" then ProcReplay.replay j
+      else if mode == "sel" then DirReplay.replaySel j
+      else if mode == "live" then DirReplay.replayLive j
+      else if mode == "mix" then DirReplay.replayMix j
+      else if mode == "bench" then DirReplay.replayBench j
+      else if mode == "twin" then DirReplay.replayTwin j
       else .error ("unknown mode " ++ mode)
     match r with
     | .ok v => v
